@@ -172,6 +172,24 @@ func extraFile() *abs.File {
 			{Name: "Tags", In: pk + "MapB", Out: pk + "ListA"}}}}}
 }
 
+// siblingFile: a file nothing imports that lives in the SAME proto package and Go package as the schema's own
+// files, declares a service, and whose path sorts before all of them - present in the request, not generated.
+func siblingFile(like *abs.File) *abs.File {
+	dir := like.Name
+	if i := strings.LastIndex(dir, "/"); i >= 0 {
+		dir = dir[:i+1]
+	} else {
+		dir = ""
+	}
+	pk := like.Pkg + "."
+	return &abs.File{Name: dir + "aa_sibling.proto", Pkg: like.Pkg, GoPkg: like.GoPkg, Generate: false,
+		Messages: []*abs.Message{
+			{Name: "ZzSiblingIn", Fields: []*abs.Field{{Name: "q", Num: 1, Kind: "string", Card: "one", Rules: abs.NoRules()}}},
+			{Name: "ZzSiblingOut", Fields: []*abs.Field{{Name: "r", Num: 1, Kind: "int64", Card: "one", Rules: abs.NoRules(), Ann: abs.Ann{Int64: "NUMBER"}}}},
+		},
+		Services: []*abs.Service{{Name: "ZzSiblingService", Methods: []*abs.Method{{Name: "Peek", In: pk + "ZzSiblingIn", Out: pk + "ZzSiblingOut"}}}}}
+}
+
 // checkC15 : generation is a pure, order-independent function of the definitions.
 func checkC15(c *chk.Ctx) {
 	extraConsts["Enforce"] = `{"C15", "C16"}`
@@ -197,6 +215,12 @@ func checkC15(c *chk.Ctx) {
 		// schema with an extra unrelated file
 		ext := &abs.Schema{Files: append(append([]*abs.File{}, e.Schema.Files...), extraFile())}
 		bx, err := abs.Build(ext)
+		if err != nil {
+			c.Broken("harness: %v", err)
+		}
+		// ... and with an unimported sibling file of the same package present in the request
+		sibs := &abs.Schema{Files: append([]*abs.File{siblingFile(e.Schema.Files[0])}, e.Schema.Files...)}
+		bs, err := abs.Build(sibs)
 		if err != nil {
 			c.Broken("harness: %v", err)
 		}
@@ -245,6 +269,7 @@ func checkC15(c *chk.Ctx) {
 			}
 			run(p, "extra_unrelated", set.Run(p, bx.Request(param, nil), plug.RunOpts{}), gen)
 			run(p, "extra_unrelated", set.Run(p, bx.Request(param, append([]string{"zzextra/unrelated.proto"}, gen...)), plug.RunOpts{}), gen)
+			run(p, "extra_unrelated", set.Run(p, bs.Request(param, gen), plug.RunOpts{}), gen)
 			if pl.label != "" {
 				for i := first; i < len(seg.Lines); i++ {
 					var ev map[string]any
